@@ -368,6 +368,11 @@ class C09Mon(episodes.Monitor):
         if "reward" in pred and not base.arr_eq(ts.reward, np.asarray(pred["reward"], np.asarray(ts.reward).dtype), tol=1e-5):
             rec.fail("transition.reward", "reward differs from the rule model",
                      tag + f"env {base.short(ts.reward)} model {base.short(pred['reward'])}")
+        if "reward_check" in pred:
+            msg = pred["reward_check"](ts.reward)
+            self.ctx.count("reward_predicates")
+            if msg:
+                rec.fail("transition.reward", "reward violates the documented minimum meaning of the rule", tag + msg)
         if "last" not in pred and hasattr(self.m, "last_given_next"):
             lg = self.m.last_given_next(ps, a, s)
             if lg is not None:
@@ -441,12 +446,61 @@ class HistoryProp:
         return [n for n in envs.ENV_NAMES if n in names]
 
     def work_items(self, tier, flt):
-        return histprop.work_items(self.env_names(), tier, flt, self.n_quick, self.n_thorough, cost=HEAVY)
+        items = histprop.work_items(self.env_names(), tier, flt, self.n_quick, self.n_thorough, cost=HEAVY)
+        # rare-episode items (vf/bulk.py): thousands of scripted-policy episodes of a small entry are summarised on the
+        # device, grouped by what happened in them, and one episode of each of the rarest groups is replayed under the
+        # monitor
+        from vf import bulk
+
+        names = set(self.env_names())
+        for it in bulk.sweep_items(tier, flt):
+            if it["env"] in names:
+                items.append(dict(it, kind="rare", take=10 if tier == "quick" else 40,
+                                  episodes=min(it["episodes"], 4096), cost=2.0))
+        return items
 
     def make_monitor(self, b, ctx, shared):
         return self.mon_cls(b, ctx, shared)
 
+    def _run_rare(self, item, seed):
+        from vf import bulk
+        from vf.hyp import st
+
+        ctx = Ctx(self.prop, item)
+        with ctx.guard(item["env"], {"env": item["env"], "entry": item["entry"], "stage": "construct"}):
+            b = envs.bundle(item["env"], item["entry"])
+            model = _model_setup(self.method)(ctx, b)
+            chaos = self.plan_strategy is None      # the fill-order properties quantify over mask-respecting play only
+
+            def one(key, salt, pick):
+                with ctx.guard(b.name, {"env": b.name, "entry": b.entry, "key": list(key), "actions": [], "stage": "sweep"}):
+                    chosen, n_groups = bulk.rare_episodes(b, key, salt, item["episodes"], item["steps"], item["take"], pick,
+                                                          item.get("policy", "legal_hash"), chaos)
+                ctx.count("rare_batches")
+                ctx.count("rare_episodes_screened", item["episodes"])
+                ctx.count("rare_groups", n_groups)
+                for sig, size, kw, acts in chosen:
+                    rec = episodes.Recorder(ctx, b, kw)
+                    mon = self.mon_cls(b, ctx, model)
+                    with ctx.guard(b.name, rec.case(), size=10**6):
+                        try:
+                            episodes.run_actions(b, rec, [a.tolist() for a in acts], mon)
+                        except Exception:
+                            histprop._reraise_with_case(ctx, b.name, rec)
+                            continue
+                    ctx.count("rare_episodes_replayed")
+                    ctx.nontrivial(b.name, b.entry, "rare", sig)
+                    if len(ctx.samples) < 3:
+                        ctx.sample({"env": b.name, "entry": b.entry, "key": kw, "rare_signature": list(map(str, sig)),
+                                    "group_size": size, "of": item["episodes"], "actions": [a.tolist() for a in acts[:12]]})
+
+            hyp.drive({"key": episodes.keys(), "salt": st.integers(0, 2**20), "pick": st.integers(0, 2**16)}, one, seed,
+                      item["batches"])
+        return ctx.result()
+
     def run_item(self, item, seed, tier):
+        if item.get("kind") == "rare":
+            return self._run_rare(item, seed)
         if self.plan_strategy is None:
             return histprop.run_item(
                 self.prop, item, seed, self.make_monitor, max_len=self.max_len, styles=self.styles,
